@@ -1,9 +1,225 @@
--- line-protocol handler of property C20 (stub: nothing modelled yet)
+-- line-protocol handler of property C20 (polynomial arithmetic and batch utilities):
+-- runs the definitions of Winter/Model/Poly.lean with the raw-word field operations of
+-- Winter/Model/Field.lean (and the generated quadratic-extension formulas of f64)
 import Winter.Drv.Util
+import Winter.Model.Field
+import Winter.Model.Poly
 
 namespace Drv.C20
+open Model Model.Poly
 
-def handle (_toks : List String) : String := "-"
+/-- the operations of a base field on raw words, as used by the polynomial code -/
+def opsOf (F : FieldImpl) : Ops Nat where
+  zero := F.new 0
+  one := F.new 1
+  add := F.add
+  sub := F.sub
+  mul := F.mul
+  inv := fun x => match F.inv x with
+    | .done r => some r
+    | .out => none
+  isZero := fun x => F.eq x (F.new 0)
+  isOne := fun x => F.eq x (F.new 1)
+  pow := F.exp
+
+/-- base-field operations the generated extension formulas of f64 are written against -/
+def fops64 : Gen.FOps Nat where
+  add := F64.impl.add
+  sub := F64.impl.sub
+  mul := F64.impl.mul
+  neg := F64.impl.neg
+  double := F64.impl.double
+  square := fun x => F64.impl.mul x x
+  ofNat := F64.impl.new
+
+def q64Zero : Nat × Nat := (F64.impl.new 0, F64.impl.new 0)
+def q64IsZero (x : Nat × Nat) : Bool := F64.impl.eq x.1 (F64.impl.new 0) && F64.impl.eq x.2 (F64.impl.new 0)
+
+/-- `QuadExtension::<f64::BaseElement>::inv` -/
+def q64Inv (x : Nat × Nat) : Option (Nat × Nat) :=
+  if q64IsZero x then some x
+  else
+    let num := Gen.F64.ext2_frobenius fops64 x.1 x.2
+    let norm := Gen.F64.ext2_mul fops64 x.1 x.2 num.1 num.2
+    if !(F64.impl.eq norm.2 (F64.impl.new 0)) then none   -- debug_assert_eq!(norm[1], ZERO): never fires
+    else
+      match F64.impl.inv norm.1 with
+      | .done di => some (F64.impl.mul num.1 di, F64.impl.mul num.2 di)
+      | .out => none
+
+def q64MulOps (pow : Nat × Nat → Nat → Nat × Nat) : Ops (Nat × Nat) where
+  zero := q64Zero
+  one := (F64.impl.new 1, F64.impl.new 0)
+  add := fun a b => (F64.impl.add a.1 b.1, F64.impl.add a.2 b.2)
+  sub := fun a b => (F64.impl.sub a.1 b.1, F64.impl.sub a.2 b.2)
+  mul := fun a b => Gen.F64.ext2_mul fops64 a.1 a.2 b.1 b.2
+  inv := q64Inv
+  isZero := q64IsZero
+  isOne := fun x => F64.impl.eq x.1 (F64.impl.new 1) && F64.impl.eq x.2 (F64.impl.new 0)
+  pow := pow
+
+/-- the quadratic extension of f64; `exp` is the trait's default `exp_vartime` -/
+def q64Ops : Ops (Nat × Nat) :=
+  q64MulOps fun x p => expVartime (q64MulOps fun _ _ => q64Zero) x p
+
+/-- everything the handler needs to know about one field: `α` its elements, `β` the elements of the
+    field whose elements are the `b` of `mul_acc` / the coefficients of `evalb` -/
+structure Dr (α β : Type) where
+  ops : Ops α
+  parse : String → Option α
+  parseSub : String → Option β
+  cast : β → α            -- `E::from(b)`
+  mulBase : α → β → α     -- `c.mul_base(b)`
+  render : α → String
+
+def parseWord (F : FieldImpl) (s : String) : Option Nat :=
+  if s.length > 39 then none
+  else match s.toNat? with
+    | some v => if v < 2 ^ F.wordBits then some (F.new v) else none
+    | none => none
+
+def baseDr (F : FieldImpl) : Dr Nat Nat where
+  ops := opsOf F
+  parse := parseWord F
+  parseSub := parseWord F
+  cast := id
+  mulBase := F.mul
+  render := fun x => toString (F.asInt x)
+
+def q64Dr : Dr (Nat × Nat) Nat where
+  ops := q64Ops
+  parse := fun s => match s.splitOn ":" with
+    | [a, b] => match parseWord F64.impl a, parseWord F64.impl b with
+      | some x, some y => some (x, y)
+      | _, _ => none
+    | _ => none
+  parseSub := parseWord F64.impl
+  cast := fun b => (b, F64.impl.new 0)
+  mulBase := fun c b => Gen.F64.ext2_mul_base fops64 c.1 c.2 b
+  render := fun x => s!"{F64.impl.asInt x.1}:{F64.impl.asInt x.2}"
+
+variable {α β : Type}
+
+def parseList (p : String → Option α) (s : String) : Option (List α) :=
+  if s == "-" then some [] else (s.splitOn ",").mapM p
+
+def renderList (D : Dr α β) (xs : List α) : String :=
+  if xs.isEmpty then "[]" else ",".intercalate (xs.map D.render)
+
+def resList (D : Dr α β) : Res (List α) → String
+  | .ok xs => renderList D xs
+  | .panic _ => "panic"
+  | .hang => "hang"
+
+def parseNum (s : String) (max : Nat) : Option Nat :=
+  if s.length > 19 then none
+  else match s.toNat? with
+    | some v => if v ≤ max then some v else none
+    | none => none
+
+/-- split a flat list into `k` consecutive batches of `n` elements -/
+def batches (n : Nat) : Nat → List α → List (List α)
+  | 0, _ => []
+  | k + 1, xs => xs.take n :: batches n k (xs.drop n)
+
+def handleF (D : Dr α β) : List String → String
+  | ["eval", p, x] =>
+    match parseList D.parse p, D.parse x with
+    | some p, some x => D.render (eval D.ops p x)
+    | _, _ => "bad-op"
+  | ["evalb", p, x] =>
+    match parseList D.parseSub p, D.parse x with
+    | some p, some x => D.render (evalWith D.ops D.cast p x)
+    | _, _ => "bad-op"
+  | ["evalmany", p, xs] =>
+    match parseList D.parse p, parseList D.parse xs with
+    | some p, some xs => renderList D (evalMany D.ops p xs)
+    | _, _ => "bad-op"
+  | ["add", a, b] =>
+    match parseList D.parse a, parseList D.parse b with
+    | some a, some b => renderList D (add D.ops a b)
+    | _, _ => "bad-op"
+  | ["sub", a, b] =>
+    match parseList D.parse a, parseList D.parse b with
+    | some a, some b => renderList D (sub D.ops a b)
+    | _, _ => "bad-op"
+  | ["mul", a, b] =>
+    match parseList D.parse a, parseList D.parse b with
+    | some a, some b => resList D (mul D.ops a b)
+    | _, _ => "bad-op"
+  | ["scal", p, k] =>
+    match parseList D.parse p, D.parse k with
+    | some p, some k => renderList D (mulByScalar D.ops p k)
+    | _, _ => "bad-op"
+  | ["div", a, b] =>
+    match parseList D.parse a, parseList D.parse b with
+    | some a, some b => resList D (div D.ops a b)
+    | _, _ => "bad-op"
+  | ["syndiv", p, a, b] =>
+    match parseList D.parse p, parseNum a 100000, D.parse b with
+    | some p, some a, some b => resList D (synDiv D.ops p a b)
+    | _, _, _ => "bad-op"
+  | ["syndivroots", p, roots] =>
+    match parseList D.parse p, parseList D.parse roots with
+    | some p, some roots => resList D (synDivRoots D.ops p roots)
+    | _, _ => "bad-op"
+  | ["roots", xs] =>
+    match parseList D.parse xs with
+    | some xs => resList D (polyFromRoots D.ops xs)
+    | _ => "bad-op"
+  | ["interp", xs, ys, rlz] =>
+    match parseList D.parse xs, parseList D.parse ys with
+    | some xs, some ys =>
+      if rlz == "0" then resList D (interpolate D.ops xs ys false)
+      else if rlz == "1" then resList D (interpolate D.ops xs ys true)
+      else "bad-op"
+    | _, _ => "bad-op"
+  | ["interpb", n, nx, ny, xs, ys] =>
+    match parseNum n 8, parseNum nx 4096, parseNum ny 4096, parseList D.parse xs, parseList D.parse ys with
+    | some n, some nx, some ny, some xs, some ys =>
+      if xs.length ≠ nx * n ∨ ys.length ≠ ny * n then "bad-op"
+      else
+        match interpolateBatch D.ops n (batches n nx xs) (batches n ny ys) with
+        | .ok polys => renderList D polys.flatten
+        | .panic _ => "panic"
+        | .hang => "hang"
+    | _, _, _, _, _ => "bad-op"
+  | ["deg", p] =>
+    match parseList D.parse p with
+    | some p => toString (degreeOf D.ops p)
+    | _ => "bad-op"
+  | ["rlz", p] =>
+    match parseList D.parse p with
+    | some p => renderList D (removeLeadingZeros D.ops p)
+    | _ => "bad-op"
+  | ["pser", b, n] =>
+    match D.parse b, parseNum n 1048576 with
+    | some b, some n => renderList D (getPowerSeries D.ops b n)
+    | _, _ => "bad-op"
+  | ["psero", b, s, n] =>
+    match D.parse b, D.parse s, parseNum n 1048576 with
+    | some b, some s, some n => renderList D (getPowerSeriesWithOffset D.ops b s n)
+    | _, _, _ => "bad-op"
+  | ["addip", a, b] =>
+    match parseList D.parse a, parseList D.parse b with
+    | some a, some b => resList D (addInPlace D.ops a b)
+    | _, _ => "bad-op"
+  | ["mulacc", a, b, c] =>
+    match parseList D.parse a, parseList D.parseSub b, D.parse c with
+    | some a, some b, some c => resList D (mulAcc D.ops D.mulBase a b c)
+    | _, _, _ => "bad-op"
+  | ["binv", xs] =>
+    match parseList D.parse xs with
+    | some xs => resList D (batchInversion D.ops xs)
+    | _ => "bad-op"
+  | _ => "bad-op"
+
+def handle : List String → String
+  | "f64" :: rest => handleF (baseDr F64.impl) rest
+  | "f62" :: rest => handleF (baseDr F62.impl) rest
+  | "f128" :: rest => handleF (baseDr F128.impl) rest
+  | "q64" :: rest => handleF q64Dr rest
+  | _ => "bad-op"
 
 end Drv.C20
 
